@@ -127,6 +127,11 @@ mod e2e {
     /// One direction of the relay: copy bytes in PRNG-sized fragments, yielding a PRNG
     /// number of times in between; stop for good when the byte budget is used up or the
     /// kill switch fires.
+    /// `hold.0`: number of whole cluster frames (u64 big-endian length + payload) this direction
+    /// lets through before it stands still; `hold.1`: the gate that lets it go on.
+    type Hold = (Arc<AtomicI64>, tokio::sync::watch::Receiver<bool>);
+
+    #[allow(clippy::too_many_arguments)]
     async fn pump(
         mut r: tokio::io::ReadHalf<tokio::io::DuplexStream>,
         mut w: tokio::io::WriteHalf<tokio::io::DuplexStream>,
@@ -135,21 +140,54 @@ mod e2e {
         kill: tokio::sync::watch::Sender<bool>,
         mut killed: tokio::sync::watch::Receiver<bool>,
         moved: Arc<AtomicI64>,
+        mut hold: Hold,
     ) {
         let mut buf = [0u8; 512];
-        loop {
-            let max = *rng.pick(&[1usize, 3, 7, 16, 64, 512]);
+        // position in the frame structure of the stream
+        let mut hdr: Vec<u8> = Vec::new();
+        let mut left: u64 = 0; // payload bytes of the current frame still to come
+        let mut in_payload = false;
+        let mut frames_done: i64 = 0;
+        'outer: loop {
+            if !in_payload && hdr.is_empty() && frames_done >= hold.0.load(Ordering::SeqCst) {
+                // at a frame boundary and told to stand still: wait for the gate
+                loop {
+                    if *hold.1.borrow() {
+                        break;
+                    }
+                    tokio::select! {
+                        _ = killed.changed() => break 'outer,
+                        c = hold.1.changed() => if c.is_err() { break 'outer },
+                    }
+                }
+            }
+            let to_boundary = if in_payload { left as usize } else { 8 - hdr.len() };
+            let max = (*rng.pick(&[1usize, 3, 7, 16, 64, 512])).min(to_boundary.max(1));
             let n = tokio::select! {
                 _ = killed.changed() => break,
                 r = r.read(&mut buf[..max]) => match r { Ok(0) | Err(_) => break, Ok(n) => n },
             };
-            let left = budget.load(Ordering::SeqCst);
-            let n = (n as i64).min(left).max(0) as usize;
+            let left_budget = budget.load(Ordering::SeqCst);
+            let n = (n as i64).min(left_budget).max(0) as usize;
             if n > 0 {
                 budget.fetch_sub(n as i64, Ordering::SeqCst);
                 moved.fetch_add(n as i64, Ordering::SeqCst);
                 if w.write_all(&buf[..n]).await.is_err() {
                     break;
+                }
+                if in_payload {
+                    left -= n as u64;
+                } else {
+                    hdr.extend_from_slice(&buf[..n]);
+                    if hdr.len() == 8 {
+                        left = u64::from_be_bytes(hdr[..8].try_into().unwrap());
+                        hdr.clear();
+                        in_payload = true;
+                    }
+                }
+                if in_payload && left == 0 {
+                    in_payload = false;
+                    frames_done += 1;
                 }
             }
             if budget.load(Ordering::SeqCst) <= 0 {
@@ -210,6 +248,9 @@ mod e2e {
         callers: HashMap<u64, tokio::task::JoinHandle<String>>,
         aborted: Vec<u64>,
         budgets: [Arc<AtomicI64>; 2],
+        /// frames each direction lets through before standing still, and the gate that releases both
+        holds: [Arc<AtomicI64>; 2],
+        gate: tokio::sync::watch::Sender<bool>,
         kill: tokio::sync::watch::Sender<bool>,
         nid: [u64; 2],
         /// proxies seen so far: (dir, probe) -> cell (kept to observe them after they left pg)
@@ -258,7 +299,7 @@ mod e2e {
             }
         }
 
-        async fn new(case: u64, nprobes: usize, seed: u64, st: &mut Stats) -> Option<(World, String)> {
+        async fn new(case: u64, nprobes: usize, hold: Option<usize>, seed: u64, st: &mut Stats) -> Option<(World, String)> {
             let ctl = ractor::verif::install();
             let mut rng = Rng::new(seed ^ case.wrapping_mul(0x9E37));
             let host = format!("h{case}");
@@ -289,6 +330,8 @@ mod e2e {
                 callers: HashMap::new(),
                 aborted: vec![],
                 budgets: [Arc::new(AtomicI64::new(i64::MAX)), Arc::new(AtomicI64::new(i64::MAX))],
+                holds: [Arc::new(AtomicI64::new(i64::MAX)), Arc::new(AtomicI64::new(i64::MAX))],
+                gate: tokio::sync::watch::channel(false).0,
                 kill,
                 nid: [u64::MAX, u64::MAX],
                 proxies: HashMap::new(),
@@ -305,9 +348,16 @@ mod e2e {
             let (ar, aw) = tokio::io::split(a_relay);
             let (br, bw) = tokio::io::split(b_relay);
             let moved = Arc::new(AtomicI64::new(0));
-            tokio::spawn(pump(ar, bw, w.rng.fork(), w.budgets[0].clone(), w.kill.clone(), w.kill.subscribe(), moved.clone()));
-            tokio::spawn(pump(br, aw, w.rng.fork(), w.budgets[1].clone(), w.kill.clone(), w.kill.subscribe(), moved));
             let a_is_server = w.rng.chance(1, 2);
+            // `hold` = the direction (0: A->B, 1: B->A) that stands still after the authentication
+            // frames of its sender (a client sends 2: Name, Reply+Challenge; a server sends 3:
+            // Status, Challenge, Ack), i.e. before that node's Spawn / PgJoin / Ready
+            if let Some(d) = hold {
+                let sender_is_server = if d == 0 { a_is_server } else { !a_is_server };
+                w.holds[d].store(if sender_is_server { 3 } else { 2 }, Ordering::SeqCst);
+            }
+            tokio::spawn(pump(ar, bw, w.rng.fork(), w.budgets[0].clone(), w.kill.clone(), w.kill.subscribe(), moved.clone(), (w.holds[0].clone(), w.gate.subscribe())));
+            tokio::spawn(pump(br, aw, w.rng.fork(), w.budgets[1].clone(), w.kill.clone(), w.kill.subscribe(), moved, (w.holds[1].clone(), w.gate.subscribe())));
             w.a.cast(NodeServerMessage::ConnectionOpenedExternal {
                 stream: Box::new(Duplex { stream: a_sess, label: "link".into() }),
                 is_server: a_is_server,
@@ -334,7 +384,25 @@ mod e2e {
                     }
                 }
             }
-            let obs = format!("ready a={} b={}{}", w.nid[0] as i64, w.nid[1] as i64, if quiet && quiet2 { "" } else { " busy" });
+            let mut obs = format!("ready a={} b={}{}", w.nid[0] as i64, w.nid[1] as i64, if quiet && quiet2 { "" } else { " busy" });
+            if let Some(d) = hold {
+                // which node has completed the initial exchange (received the peer's Ready)?
+                let mut flags = vec![];
+                for node in [w.a.clone(), w.b.clone()] {
+                    let r = drive(&w.ctl, &mut w.rng, st, async move {
+                        let m = ractor::call_t!(node, NodeServerMessage::GetSessions, 60_000).ok()?;
+                        let s = m.into_values().find(|s| s.peer_addr == "link")?;
+                        ractor::call_t!(s.actor, ractor_cluster::NodeSessionMessage::GetReadyState, 60_000).ok()
+                    })
+                    .await;
+                    flags.push(match r {
+                        Some(Some(true)) => "ready",
+                        Some(Some(false)) => "syncing",
+                        _ => "?",
+                    });
+                }
+                obs = format!("{obs} held={} a={} b={}", if d == 0 { "a" } else { "b" }, flags[0], flags[1]);
+            }
             Some((w, obs))
         }
 
@@ -553,6 +621,14 @@ mod e2e {
                     self.budgets[Self::dir(d)].store(n.parse().unwrap(), Ordering::SeqCst);
                     "ok".into()
                 }
+                ["release"] => {
+                    st.bump("e_release");
+                    let _ = self.gate.send(true);
+                    for _ in 0..4 {
+                        tokio::task::yield_now().await;
+                    }
+                    "ok".into()
+                }
                 ["cut"] => {
                     st.bump("e_cut");
                     self.budgets[0].store(0, Ordering::SeqCst);
@@ -588,12 +664,16 @@ mod e2e {
     pub async fn run_case(ops: &[String], log: &mut Log, st: &mut Stats) {
         let Some(first) = ops.first() else { return };
         let w: Vec<&str> = first.split_whitespace().collect();
-        let (case, nprobes): (u64, usize) = match w.as_slice() {
-            ["e2e", c, n] => (c.parse().unwrap_or(0), n.parse().unwrap_or(1)),
+        let (case, nprobes, hold): (u64, usize, Option<usize>) = match w.as_slice() {
+            ["e2e", c, n] => (c.parse().unwrap_or(0), n.parse().unwrap_or(1), None),
+            ["e2e", c, n, h] => (c.parse().unwrap_or(0), n.parse().unwrap_or(1), match *h { "a" => Some(0), "b" => Some(1), _ => None }),
             _ => return,
         };
         st.bump("e2e_cases");
-        let Some((mut world, obs)) = World::new(case, nprobes, 0xC20, st).await else {
+        if hold.is_some() {
+            st.bump("e2e_cases_with_held_exchange");
+        }
+        let Some((mut world, obs)) = World::new(case, nprobes, hold, 0xC20, st).await else {
             log.rec(first, "setup-failed");
             ractor::verif::uninstall();
             return;
@@ -608,9 +688,51 @@ mod e2e {
 
     pub fn gen_case(rng: &mut Rng, c: u64) -> Vec<String> {
         let nprobes = rng.range(1, 3);
-        let mut ops = vec![format!("e2e {c} {nprobes}")];
+        // a third of the cases: one direction of the relay stands still right after the
+        // authentication frames, and actors exit / join / leave / appear in that window
+        let hold = if rng.chance(1, 3) { Some(*rng.pick(&["a", "b"])) } else { None };
+        let mut ops = vec![match hold {
+            Some(h) => format!("e2e {c} {nprobes} {h}"),
+            None => format!("e2e {c} {nprobes}"),
+        }];
         let mut live: Vec<u64> = (0..nprobes).collect();
         let mut all = nprobes;
+        if hold.is_some() {
+            let groups = ["g1", "g2"];
+            let observe = |ops: &mut Vec<String>, all: u64| {
+                ops.push("settle".into());
+                for g in groups {
+                    ops.push(format!("members {g}"));
+                }
+                for t in 0..all {
+                    ops.push(format!("members p{t}"));
+                    ops.push(format!("status a {t}"));
+                    ops.push(format!("status b {t}"));
+                }
+            };
+            observe(&mut ops, all);
+            for _ in 0..rng.range(1, 4) {
+                match rng.below(10) {
+                    0..=2 if !live.is_empty() => ops.push(format!("join {} {}", rng.pick(&live), rng.pick(&groups))),
+                    3 if !live.is_empty() => ops.push(format!("leave {} {}", rng.pick(&live), rng.pick(&groups))),
+                    4..=6 if !live.is_empty() => {
+                        let i = rng.below(live.len() as u64) as usize;
+                        ops.push(format!("stop {}", live.remove(i)));
+                    }
+                    _ => {
+                        ops.push("spawn".into());
+                        live.push(all);
+                        all += 1;
+                    }
+                }
+                if rng.chance(2, 3) {
+                    observe(&mut ops, all);
+                }
+            }
+            ops.push("settle".into());
+            ops.push("release".into());
+            observe(&mut ops, all);
+        }
         let mut seqs: HashMap<(u64, u64, u64), u64> = HashMap::new(); // (dir, target, sender) -> next seq
         let mut ncall = 0u64;
         let mut open_calls: Vec<u64> = vec![];
